@@ -102,6 +102,10 @@ func raceOracle(cfg *vh.Config, res *vh.Result, rounds int, caseBase int) (int, 
 						sig = "C10 concurrent first use: call panics, unlike the call run alone"
 					}
 				}
+				if f["mode"] == "retained-result" {
+					// one goroutine, two consecutive encodes: the first result was read after the second call
+					sig = "C10 encode result retained by the caller is overwritten by a later encode on the codec (the returned bytes are not the caller's own)"
+				}
 				res.Fail(vh.Failure{Case: caseBase + last, Stream: "goroutines", Sig: sig,
 					Clause: "each call returns the same result it returns when run alone", Input: f, Got: string(got), Want: string(want)})
 			}
